@@ -129,7 +129,7 @@ def structural_categorical(snap, values, y, min_freq, str_nan, str_default):
 def probe_check(case, obj, f, snap, counters):
     """Behavioural check on a probe frame for a quantitative feature. Returns problems."""
     pts, bounds = fitted.probe_values(snap)
-    frame = fitted.probe_frame(case, obj, f, pts)
+    frame = fitted.probe_frame(case, obj, f, pts, index=pd.Index(np.arange(len(pts))[::-1] * 3 + 11))  # not the default RangeIndex
     out, e = common.guarded(obj.transform, frame)
     if e is not None:
         return [f"transform of the probe frame raised {common.exc_name(e)}: {str(e)[:200]}"]
